@@ -13,7 +13,7 @@ Definition model (c : case) : fs * result errno unit :=
   | OpRdr =>
       remove_dir_recursively GenLayerShared.rdr_checks_symlink (rdr_fuel (c_pre c))
                              (c_layers c ++ [c_name c]) (c_pre c)
-  | OpRecreate => (c_post c, Ok tt)       (* no exact model of create_layer at this level: judged by `holds` only *)
+  | OpRecreate => (c_post c, Ok tt)       (* compared with recreate_model in `agrees` *)
   | OpReadLayer =>
       (* read_layer as regenerated from shared.rs; parsing succeeds in the model (a parse error comes after every
          file-system effect and is accepted by res_agrees_read) *)
@@ -49,6 +49,15 @@ Definition model_regenerated (c : case) : fs * result errno unit :=
   | OpRdr | OpRecreate | OpReadLayer | OpWriteLayer | OpReplaceTypes => model c
   end.
 
+(* BuildContext::uncached_layer on an existing layer, as handle_layer composes it: read_layer; delete_layer when
+   a layer was read; write_layer; read_layer again -- every step the function regenerated from shared.rs *)
+Definition recreate_model (c : case) : fs * result errno unit :=
+  let parse := fun _ : bytes => Some tt in
+  (r1 <- GenLayerSharedImp.gen_read_layer parse (c_layers c) (c_name c) ;;
+   (match r1 with Some _ => GenLayerSharedImp.gen_delete_layer (c_layers c) (c_name c) | None => ret tt end) ;;;
+   GenLayerSharedImp.gen_write_layer (fun _ : unit => Toml.TTbl []) (c_layers c) (c_name c) tt ;;;
+   _ <- GenLayerSharedImp.gen_read_layer parse (c_layers c) (c_name c) ;; ret tt) (c_pre c).
+
 (* a parse error (ROther) ends a call whose file-system part went through *)
 Definition res_agrees_read (o : c11_res) (m : result errno unit) : bool :=
   match o, m with
@@ -57,7 +66,15 @@ Definition res_agrees_read (o : c11_res) (m : result errno unit) : bool :=
   end.
 
 Definition agrees (c : case) : bool :=
-  match c_op c with OpRecreate => true | _ => false end ||
+  match c_op c with
+  | OpRecreate =>
+      (* the composed model, or a request that failed after its first read (unparsable metadata is the real
+         parser's business: the model's parser accepts everything) *)
+      (let '(s', r) := recreate_model c in res_agrees (c_res c) r && fs_eqb (doc_blank s' s') (doc_blank s' (c_post c))) ||
+      (match c_res c with ROk => false | _ => true end &&
+       fs_eqb (c_post c) (fst (GenLayerSharedImp.gen_read_layer (fun _ : bytes => Some tt) (c_layers c) (c_name c) (c_pre c))))
+  | _ => false
+  end ||
   match c_op c with
   | OpReadLayer => let '(s', r) := model c in res_agrees_read (c_res c) r && fs_eqb s' (c_post c)
   | OpWriteLayer => let '(s', r) := model c in res_agrees (c_res c) r && fs_eqb (doc_blank s' s') (doc_blank s' (c_post c))
